@@ -192,6 +192,46 @@ def main(argv):
                         agree += 1
                     elif not why:
                         corr_fail.append(rec)
+    # conservativity over the shared reference evaluator, as a TEST (the theorem is not proved, see
+    # docs/C16.md): on every generated program without lazy formals / force / substitute the extracted
+    # RefSemLazy.v and the extracted RefSem.v (the specification of C02/C03) must print the same outcome
+    cons_n = cons_bad = 0
+    cons_examples = []
+    if cases and mout:
+        rcr, outr, refsem_exe = common.build_ocaml("RefSem")
+        if rcr == 0:
+            sub = os.path.join(common.BUILD, "C16.strict.cases")
+            keep = {}
+            with open(cases) as f, open(sub, "w") as w:
+                for lc in f:
+                    a = lc.rstrip("\n").split("\t")
+                    if "#" in a[1].split(" ", 1)[-1] or "(var force)" in a[1] or "(var substitute)" in a[1]:
+                        continue
+                    w.write(a[0] + "\t" + a[1] + "\n")
+                    keep[a[0]] = a[1]
+            rout = os.path.join(common.BUILD, "C16.strict.refsem")
+            rcm, err = common.run_model(refsem_exe, sub, rout)
+            if rcm == 0:
+                lazy_out = {}
+                with open(mout) as g:
+                    for lm in g:
+                        b = lm.rstrip("\n").split("\t")
+                        if b[0] in keep:
+                            lazy_out[b[0]] = b[1]
+                with open(rout) as g:
+                    for lm in g:
+                        b = lm.rstrip("\n").split("\t")
+                        cons_n += 1
+                        if lazy_out.get(b[0]) != b[1]:
+                            cons_bad += 1
+                            if len(cons_examples) < 5:
+                                cons_examples.append({"input": keep[b[0]], "RefSemLazy": lazy_out.get(b[0]), "RefSem": b[1]})
+            else:
+                c.log("RefSem runner failed: " + err)
+        else:
+            c.log("RefSem runner build failed")
+    c.coverage["strict_programs_compared_with_RefSem"] = cons_n
+    c.coverage["strict_programs_RefSemLazy_differs_from_RefSem"] = cons_bad
     c.coverage["compared"] = n
     c.coverage["agree_with_model"] = agree
     c.coverage["cases_with_oracle"] = with_oracle
@@ -280,7 +320,10 @@ def main(argv):
     if violations and not c.violations:
         # everything found was a duplicate of something already reported: still a failure
         c.violation({"kind": "further failures of the same kinds", "count": violations})
-    if not violations:
+    if not violations and cons_bad:
+        c.violation({"kind": "RefSemLazy.v and the shared RefSem.v (specification of C02/C03) differ on programs without lazy formals: the copy is no longer a conservative extension (no input violating C16 found)",
+                     "cases": cons_examples, "count": cons_bad}, no_input=True, tag="cons")
+    elif not violations:
         if other:
             c.violation({"kind": "correspondence: the real interpreter and RefSemLazy.v disagree on programs WITHOUT lazy formals (the tie of the model is broken outside this property's subject; no input violating C16 found)",
                          "cases": corr_fail[:5], "count": other}, no_input=True, tag="corr")
